@@ -896,7 +896,7 @@ def check_C12(rep, tier):
 
 
 # ----------------------------------------------------------------------------- C16 / C17 / C19 (Wire.tla)
-def _wire(rep, tier, prop, kinds, judge):
+def _wire(rep, tier, prop, kinds, judge, env=None):
     sh = Sharder(prop)
     meta = {}
 
@@ -913,7 +913,7 @@ def _wire(rep, tier, prop, kinds, judge):
     rep.add_tlc(st, "MC_Wire")
     rep.vacuity(["AReadKind", "AReadSrc", "AReadWith", "AReadDst", "AReadFrom", "ASerialize", "ARespell", "AParse", "AReserialize", "ARecognise"])
     rep.cov["exhaustive"] = True
-    sh.run()
+    sh.run(env_extra=env)
     n = 0
     for r in sh.results():
         n += 1
@@ -980,7 +980,9 @@ def check_C17(rep, tier):
         if s["kind"] == "pred" and r.get("typed_agree") is False:
             rep.mismatch({"kind": "channel_dependent", "doc": "typed predicate", "detail": (r.get("typed_detail") or "")[:60]}, mk)
 
-    _wire(rep, tier, "C17", ("rule", "link", "layout", "pred", "stmt"), judge)
+    # content damages: this many leaves per document (spread over the whole document), every damage kind at each
+    _wire(rep, tier, "C17", ("rule", "link", "layout", "pred", "stmt"), judge,
+          env={"ITV_DAMAGE_LEAVES": "16" if tier == "quick" else "80"})
     rep.cov["evaluations"] *= 48
     rep.assumptions += ["serde_json's four entry points are the channels; escape spelling produced by the harness writer"]
 
